@@ -60,6 +60,12 @@ class Run:
             if f["key"] not in seen:
                 seen.add(f["key"])
                 ordered.append(f)
-        print(json.dumps({"evaluations": self.evaluations, "distinct_nontrivial": len(self.nontrivial),
+        counts = {}
+        for f in self.failures:
+            counts[f["key"]] = counts.get(f["key"], 0) + 1
+        if self.args.replay == "all-failures":
+            for f in self.failures:
+                print("FAILURE", f["key"], "|", str(f["what"])[:300], file=sys.stderr)
+        print(json.dumps({"failure_counts": counts, "evaluations": self.evaluations, "distinct_nontrivial": len(self.nontrivial),
                           "failures": ordered, "n_failures": len(self.failures), "samples": self.samples,
                           "rule": self.rule, "contracts": sorted(self.contracts)}, default=str))
